@@ -36,3 +36,12 @@ check('C14',
       'evaluated back with the 3.0 and 3.1 parsers against the same root; the result must be exactly that node and paths must be pairwise distinct.',
       'oracle is node identity through the wrapped etree objects (no string comparison with a model)',
       'DESIGN.md section 3 C14')
+check('C08',
+      'bounded-exhaustive enumeration of item sequences x function arguments against a list-model interpreter',
+      'All sequences up to length 3 (quick) / 4 (thorough) over a mixed alphabet (integers, decimal, string, NaN, node) x every listed '
+      'sequence/aggregate function with every position/length argument of a double grid incl. .5 fractions, INF and NaN, filter predicates, '
+      'for/some/every with one and two variables, the simple map operator and depth-2 compositions are evaluated by the real evaluator '
+      '(2.0/3.0/3.1) and compared item by item (value and type) with the reference interpreter; the stated equivalences are evaluated '
+      'by the implementation on both sides.',
+      'reference mc/models/seqlang.py (self-tested on the F&O examples); error codes are not compared, only value versus error',
+      'DESIGN.md section 3 C08')
